@@ -48,3 +48,29 @@ package stream
 //@   ensures[C08] inErr == nil && typeof(inTok) == xml.EndElement && inTok.(xml.EndElement).Name.Space != "http://etherx.jabber.org/streams" ==> result0 == inTok && result1 == nil
 //@   ensures[C08] inErr == nil && typeof(inTok) == xml.CharData && d0 == 0 && !(forall i int :: 0 <= i && i < len(inTok.(xml.CharData)) ==> xmlWS(inTok.(xml.CharData)[i])) ==> result1 != nil
 //@   ensures[C08] inErr == nil && typeof(inTok) == xml.CharData && (d0 != 0 || (forall i int :: 0 <= i && i < len(inTok.(xml.CharData)) ==> xmlWS(inTok.(xml.CharData)[i]))) ==> result0 == inTok && result1 == nil
+
+// ---------------------------------------------------------------------------
+// C12: the stream header is well-formed for every address, language and id
+
+// attrSafe(s): s can stand inside a single-quoted attribute value as is.
+//@ spec attrSafe(s string) bool = forall i int :: 0 <= i && i < len(s) ==> s[i] != '\'' && s[i] != '<' && s[i] != '&'
+
+// Whatever Send formats into the header with fmt must be attribute-safe:
+// variable text (addresses, id, language) has to go through xml.EscapeText.
+//@ func Send
+//@   requires attrSafe(streamData.XMLNS)
+//@   callsite fmt.Fprintf#*
+//@     assert[C12] forall k int :: 0 <= k && k < len(arg2) && typeof(arg2[k]) == string ==> attrSafe(arg2[k].(string))
+
+// An incoming header is accepted (nil error) only if it is the open element
+// of the framing in use, declares version 1.0, a supported content namespace
+// (TCP framing) and, when we initiated, a stream id.
+//@ func Expect
+// ctx.Err is only consulted after ctx.Done has fired, when it is non-nil
+//@   callsite (context.Context).Err#1
+//@     assume[C12] ret0 != nil
+//@   ensures[C12] result == nil && !ws ==> in.Name.Local == "stream" && in.Name.Space == "http://etherx.jabber.org/streams"
+//@   ensures[C12] result == nil && ws ==> in.Name.Local == "open" && in.Name.Space == wsNamespace
+//@   ensures[C12] result == nil ==> in.Version.Major == 1 && in.Version.Minor == 0
+//@   ensures[C12] result == nil && !ws ==> in.XMLNS == "jabber:client" || in.XMLNS == "jabber:server"
+//@   ensures[C12] result == nil && !recv ==> in.ID != ""
